@@ -461,6 +461,9 @@ pub enum ByteMut {
     VecShrink(u32),
     /// same heuristic: duplicate the last element and fix the prefix
     VecGrow,
+    /// same heuristic: overwrite the 4-byte word `word` of one element (last = true: the last
+    /// element, else the first) with 0xff bytes - an index or count field inside an element
+    ElemWordOnes { last: bool, word: u32 },
 }
 
 /// (count, element size) if the bytes look like a bincode Vec of fixed-size elements
@@ -504,6 +507,16 @@ pub fn apply_bytes(b: &[u8], m: &ByteMut) -> Vec<u8> {
                 let keep = if *k == u32::MAX { 0 } else { n.saturating_sub(*k as usize) };
                 v.truncate(8 + keep * sz);
                 v[..8].copy_from_slice(&(keep as u64).to_le_bytes());
+            }
+        }
+        ByteMut::ElemWordOnes { last, word } => {
+            if let Some((n, sz)) = uniform_vec_shape(b) {
+                let off = 4 * *word as usize;
+                if sz >= off + 4 {
+                    let e = if *last { n - 1 } else { 0 };
+                    let at = 8 + e * sz + off;
+                    v[at..at + 4].iter_mut().for_each(|x| *x = 0xff);
+                }
             }
         }
         ByteMut::VecGrow => {
